@@ -201,6 +201,10 @@ class WEval:
             if ty.startswith("[u8; "):
                 return ("buf", int(ty[5:-1]), {})
             raise Unk("repeat")
+        if t == "array":
+            # header assembled as an array literal: [size[0] | 0x80, size[1], ...]
+            elems = [self.ev(x, env, pc, st) for x in n[1]]
+            return ("buf", len(elems), {i: v for i, v in enumerate(elems)})
         if t == "idx":
             b = self.ev(n[3], env, pc, st)
             i = self.ev(n[4], env, pc, st)
@@ -389,6 +393,14 @@ class WEval:
                 raise Unk("write_into_vec target")
             self.add_written(w, env, ("aff", 1, 0, "usize"), st)
             return ("unit",)
+        if nm == "encrypt" and len(mc["args"]) == 1:
+            # in-place header encryption with the cipher half: the bytes keep their positions
+            r0 = self.ev(recv, env, pc, st)
+            a = self.ev(mc["args"][0], env, pc, st)
+            if r0 == ("encrypter",) and a[0] == "buf":
+                st.enc_calls += 1
+                return ("unit",)
+            raise Unk("encrypt() on something that is not a header buffer")
         if nm in ("write_encrypted_server_header", "write_encrypted_client_header") and len(mc["args"]) == 3:
             w = self.resolve_writer(mc["args"][0], env)
             size = self.ev(mc["args"][1], env, pc, st)
